@@ -179,8 +179,10 @@ func genCase(t *rapid.T, regime string) Case {
 		c.Cfg.QuietMs = 180_000
 		c.Cfg.SampleMs = 5000
 	} else {
-		c.Cfg.QuietMs = 8 * period
-		c.Cfg.SampleMs = fd / 8
+		// at least 180 s: a node whose joins failed during the fault phase retries with a back-off of up to 30 s (plus
+		// jitter), so it may join tens of seconds after the faults stopped; the judged window is the second half
+		c.Cfg.QuietMs = max(8*period, 180_000)
+		c.Cfg.SampleMs = max(fd/8, c.Cfg.QuietMs/150)
 	}
 	c.Cfg.RandSeed = rapid.Int64Range(1, 1<<40).Draw(t, "randSeed")
 	return c
@@ -354,6 +356,13 @@ func judge(c Case, r *csim.Result) (vs []verdict, nontrivial bool, labels []stri
 		}
 	} else {
 		// ---------- failure detection active: judged over the second half of the quiet phase
+		// a node that crashed or left comes back into the views again and again (KF-C18-7: merges never remove); the
+		// never-ending announcements and leader changes that follow from that are told apart from those of a cluster in
+		// which every node that ever ran is still running
+		afterDeath := ""
+		if len(died) > 0 {
+			afterDeath = "|after-a-node-died"
+		}
 		for _, y := range runIdx {
 			for _, x := range runIdx {
 				if x == y {
@@ -412,7 +421,7 @@ func judge(c Case, r *csim.Result) (vs []verdict, nontrivial bool, labels []stri
 				case differ == len(window):
 					add("C18/L|leader-disagreement-permanent", "nodes %d and %d compute different leaders in every sample of the last %d s; %s", y, z, (quietEnd-windowStart)/1000, fmtSample(final))
 				case differ > 0:
-					add("C18/L|leader-disagreement-transient", "nodes %d and %d compute different leaders in %d of the %d samples of the last %d s", y, z, differ, len(window), (quietEnd-windowStart)/1000)
+					add("C18/L|leader-disagreement-transient"+afterDeath, "nodes %d and %d compute different leaders in %d of the %d samples of the last %d s", y, z, differ, len(window), (quietEnd-windowStart)/1000)
 				}
 			}
 		}
@@ -421,10 +430,10 @@ func judge(c Case, r *csim.Result) (vs []verdict, nontrivial bool, labels []stri
 				continue
 			}
 			if e.Kind == "members" {
-				add("C18/L|membership-changes-never-stop", "node %d still announces membership changes %d s after the faults stopped: %+v", e.Node, (e.AtMs-quietStart)/1000, e)
+				add("C18/L|membership-changes-never-stop"+afterDeath, "node %d still announces membership changes %d s after the faults stopped: %+v", e.Node, (e.AtMs-quietStart)/1000, e)
 			}
 			if e.Kind == "leader" && e.IAmLeader {
-				add("C18/L|leader-announcements-never-stop", "node %d announced itself leader %d s after the faults stopped: %+v", e.Node, (e.AtMs-quietStart)/1000, e)
+				add("C18/L|leader-announcements-never-stop"+afterDeath, "node %d announced itself leader %d s after the faults stopped: %+v", e.Node, (e.AtMs-quietStart)/1000, e)
 			}
 		}
 	}
